@@ -10,6 +10,6 @@ type codecPair struct {
 
 type ssaFnRef struct{}
 
-var codecPairsC08 []codecPair
+var codecPairsC08, codecPairsC12 []codecPair
 
 func runCodecFamily(w *World, r *Report, rule string, pairs []codecPair) {}
